@@ -422,7 +422,15 @@ func init() {
 	H["strconv.ParseInt"] = func(fr *frame, a []value) value {
 		s, ok := a[0].(string)
 		if !ok {
-			panic(engineLimit{"strconv.ParseInt symbolic"})
+			// a symbolic string: the outcome is nondeterministic (a fresh
+			// integer, or a syntax error); digits are not interpreted
+			if X.decide(2, func(int) string { return "" }) == 0 {
+				ufCounter++
+				n := fmt.Sprintf("v_parsedint%d", ufCounter)
+				X.decl(n, "(_ BitVec 64)")
+				return tuple{sym{types.Int64, n}, iface{}}
+			}
+			return tuple{int64(0), hostErr(fr, "strconv.ParseInt: invalid syntax")}
 		}
 		v, err := strconv.ParseInt(s, a[1].(int), a[2].(int))
 		if err != nil {
@@ -442,7 +450,47 @@ func init() {
 		return out
 	}
 	H["strings.HasPrefix"] = func(fr *frame, a []value) value {
-		return strings.HasPrefix(a[0].(string), a[1].(string))
+		if s, ok := a[0].(string); ok {
+			return strings.HasPrefix(s, a[1].(string))
+		}
+		sb, _ := strBytes(a[0])
+		pb, _ := strBytes(a[1])
+		if len(pb) > len(sb) {
+			return false
+		}
+		return boolVal(bytesEqTerm(sb[:len(pb)], pb))
+	}
+	// strings.SplitN(s, sep, 2) with a one-byte separator on a symbolic string:
+	// the position of the first separator is decided by branching
+	H["strings.SplitN"] = func(fr *frame, a []value) value {
+		sep := a[1].(string)
+		n := a[2].(int)
+		if s, ok := a[0].(string); ok {
+			var out []value
+			for _, p := range strings.SplitN(s, sep, n) {
+				out = append(out, p)
+			}
+			return out
+		}
+		if n != 2 || len(sep) != 1 {
+			panic(engineLimit{"strings.SplitN model: n=2 and a one-byte separator only"})
+		}
+		b, _ := strBytes(a[0])
+		for i := range b {
+			var is sym
+			if c, ok := b[i].(uint8); ok {
+				if c != sep[0] {
+					continue
+				}
+				is = sym{types.Bool, "true"}
+			} else {
+				is = sym{types.Bool, fmt.Sprintf("(= %s (_ bv%d 8))", b[i].(sym).term, sep[0])}
+			}
+			if is.term == "true" || X.branch(is) {
+				return []value{mkStr(b[:i]), mkStr(b[i+1:])}
+			}
+		}
+		return []value{mkStr(b)}
 	}
 	H["strings.HasSuffix"] = func(fr *frame, a []value) value {
 		return strings.HasSuffix(a[0].(string), a[1].(string))
